@@ -11,6 +11,15 @@
 open Model
 open Vh
 
+(* Keccak-256 of the model, memoised (trusted glue: a table in front of the extracted function) *)
+let memo : (bytes, bytes) Hashtbl.t = Hashtbl.create 4096
+let kh (x : bytes) : bytes =
+  match Hashtbl.find_opt memo x with
+  | Some y -> y
+  | None -> let y = keccak256 x in
+    if Hashtbl.length memo > 200000 then Hashtbl.reset memo;
+    Hashtbl.add memo x y; y
+
 let list_of (s : string) : string list = if s = "_" then [] else String.split_on_char ',' s
 
 let parse_log (s : string) : log =
@@ -47,7 +56,7 @@ let reason = function
 let bloom_hex (b : n) : string = hex_of_bytes (bloom_bytes b)
 
 let derive (items : bytes list) : string =
-  let spec = k_derive_sha items in
+  let spec = derive_sha kh items in
   match k_derive_sha_code items with
   | Some code when code = spec -> "ok " ^ hex_of_bytes spec
   | Some code -> "driver-error spec-code-mismatch spec=" ^ hex_of_bytes spec ^ " code=" ^ hex_of_bytes code
@@ -62,12 +71,12 @@ let handle (toks : string list) : string =
   match toks with
   | ["keccak"; h] -> hex_of_bytes (keccak256 (bytes_of_hex h))
   | ["derive"; l] -> derive (List.map bytes_of_hex (list_of l))
-  | ["unclehash"; l] -> "ok " ^ hex_of_bytes (k_calc_uncle_hash (List.map parse_header (list_of l)))
+  | ["unclehash"; l] -> "ok " ^ hex_of_bytes (calc_uncle_hash kh (List.map parse_header (list_of l)))
   | ["receipts"; l] ->
     let rs = List.map parse_receipt (list_of l) in
-    let root = k_receipts_root rs in
-    (match k_derive_sha_code (List.map k_receipt_rlp rs) with
-     | Some code when code = root -> "ok " ^ hex_of_bytes root ^ " " ^ bloom_hex (k_receipts_bloom rs)
+    let root = receipts_root kh rs in
+    (match k_derive_sha_code (List.map (receipt_rlp kh) rs) with
+     | Some code when code = root -> "ok " ^ hex_of_bytes root ^ " " ^ bloom_hex (receipts_bloom kh rs)
      | _ -> "driver-error spec-code-mismatch")
   | "import" :: hdr :: txs :: uncles :: proc ->
     let b = { b_header = parse_header hdr; b_txs = List.map bytes_of_hex (list_of txs);
@@ -86,7 +95,7 @@ let handle (toks : string list) : string =
          else let (post, gas, logs) = t.(i) in
            Some { mr_state = s + 1; mr_pool = N.sub pool gas; mr_gas = gas; mr_post = post; mr_logs = logs }) in
     let root_of () _ = root in
-    (match k_import_block apply_msg no_start fin root_of () 0 b with
+    (match import_block kh apply_msg no_start fin root_of () 0 b with
      | Accepted r -> "accepted " ^ hex_of_bytes r.res_root ^ " " ^ string_of_int (int_of_n r.res_used)
      | Rejected w -> "rejected " ^ reason w)
   | ["build"; hdr; cands; uncles; txgas; root; oracle] ->
@@ -105,7 +114,7 @@ let handle (toks : string list) : string =
        | _ -> None) in
     let rootb = bytes_of_hex root in
     let root_of () _ = rootb in
-    let (b, r) = k_build_block apply_msg no_start fin root_of (n_of_string txgas) () 0 tmpl cl
+    let (b, r) = build_block kh apply_msg no_start fin root_of (n_of_string txgas) () 0 tmpl cl
                    (List.map parse_header (list_of uncles)) in
     "ok " ^ hex_of_bytes (encode (header_item b.b_header)) ^ " " ^ string_of_int (List.length b.b_txs)
     ^ " " ^ string_of_int (int_of_n r.res_used)
